@@ -119,6 +119,8 @@ pub struct ProcSpec {
     pub log_events: bool,
     /// threads of the simulated shared pool (see shim::rayon)
     pub pool_size: u32,
+    /// CPUs the simulated process may use (`available_parallelism`)
+    pub cpus: u32,
 }
 
 impl ProcSpec {
@@ -132,6 +134,7 @@ impl ProcSpec {
             stack_size: 512 * 1024,
             log_events: true,
             pool_size: 4,
+            cpus: 16,
         }
     }
     pub fn replaying(&self, trace: Vec<u16>, strict: bool) -> Self {
@@ -223,6 +226,7 @@ where
     ENTROPY.with(|e| *e.borrow_mut() = Some((SplitMix64::new(spec.entropy_seed), 0)));
     let mut st = RunState::new(spec.mode.clone(), spec.sched_seed, spec.step_cap, spec.replay.clone());
     st.pool_size = spec.pool_size.max(1);
+    st.cpus = spec.cpus.max(1);
     st.log_enabled = spec.log_events;
     rt::install(st);
 
